@@ -267,6 +267,11 @@ func (fe *FuncEnc) callByContract(f *Frame, callee *ssa.Function, name string, c
 		t := fe.evalClause(cf, en, st, pre, nil, res, pos)
 		fe.assume(path, t)
 	}
+	for _, en := range con.Assumes {
+		t := fe.evalClause(cf, en, st, pre, nil, res, pos)
+		fe.assume(path, t)
+		fe.assumes["trusted postcondition of "+name+" ["+en.Label+"]: "+en.Text] = true
+	}
 	return res
 }
 
